@@ -110,6 +110,13 @@ def cases(scripts, seed, limit):
                         out.append({"consumer": c, "script": [{"rem": lo, "chunk": 0, "adv": "ok", "cnt": 0}, {"rem": hi, "chunk": 0, "adv": "ok", "cnt": 0}], "n": k, "d": d})
     for pa in [0, 1, 2, 3]:
         out.append({"consumer": "from_owner", "script": [], "n": pa, "d": 0})
+    out.append({"consumer": "from_owner", "script": [], "n": 0, "d": 1})          # the owner's Drop panics
+    out.append({"consumer": "from_owner", "script": [], "n": 3, "d": 1})
+    # a source whose overridden copy_to_slice does not fill the destination
+    for c in ("forgetful_copy_to_bytes", "forgetful_take", "forgetful_chain", "forgetful_ref", "forgetful_box"):
+        for n in [0, 1, 5, 12]:
+            for fill in [0, 1, 3, 12]:
+                out.append({"consumer": c, "script": [], "n": n, "d": fill})
     for pos in [0, 1, 2, 3, 8, 9, 1 << 40]:
         for d in [0, 1, 4]:
             out.append({"consumer": "cursor", "script": [], "n": pos, "d": d})
